@@ -180,6 +180,16 @@ func (c simHTTP) Do(req *http.Request) (*http.Response, error) {
 		w.Attempts = append(w.Attempts, at)
 		s.logEv(Event{Kind: "http.Do", ID: req.URL.String(), Res: "err", Arg: req.Method})
 		return nil, &url.Error{Op: strings.Title(strings.ToLower(req.Method)), URL: req.URL.String(), Err: errors.New("sim: connection refused")}
+	case fate == "err:empty":
+		// an error value is an error whatever its text
+		w.Attempts = append(w.Attempts, at)
+		s.logEv(Event{Kind: "http.Do", ID: req.URL.String(), Res: fate, Arg: req.Method})
+		return nil, errors.New("")
+	case fate == "err:temporary":
+		// what net/http reports when a reused keep-alive connection was closed by the peer
+		w.Attempts = append(w.Attempts, at)
+		s.logEv(Event{Kind: "http.Do", ID: req.URL.String(), Res: fate, Arg: req.Method})
+		return nil, tempNetErr{req.URL.String()}
 	case strings.HasPrefix(fate, "status:") || fate == "short":
 		code := 200
 		if fate != "short" {
@@ -335,3 +345,9 @@ func (w *TxWorld) runTx(t *Task, rs *ReqSpec) {
 		}
 	}
 }
+
+type tempNetErr struct{ url string }
+
+func (e tempNetErr) Error() string   { return "sim: " + e.url + ": connection reset by peer (temporary)" }
+func (e tempNetErr) Temporary() bool { return true }
+func (e tempNetErr) Timeout() bool   { return false }
